@@ -19,8 +19,12 @@ func init() {
 }
 
 func runC09(c *eng.Ctx) {
+	c.Rule("R08.6", "K4")
+	ruleReverseScanRecoversFromDeleted(c)
 	c.Rule("R09.8", "K1")
 	ruleSwapOnlyAfterASuccessfulPass(c)
+	c.Rule("R09.9", "K5")
+	ruleReadPathSkipsDeletedSegments(c)
 	c.Rule("R01.9", "K5")
 	ruleReaderStartsInsideItsSegment(c)
 	p := c.P
@@ -241,6 +245,18 @@ func runC09(c *eng.Ctx) {
 		if ok {
 			a := ce[0].Common().Args[1]
 			ok = eng.LoadNamed("BaseOffset", nil)(a)
+			if !ok {
+				// … or the smaller of that base offset and the newest offset (a log retention has emptied, F81)
+				if ph, isPhi := eng.Strip(a).(*ssa.Phi); isPhi {
+					hasBase := false
+					for _, e := range ph.Edges {
+						if eng.LoadNamed("BaseOffset", nil)(e) {
+							hasBase = true
+						}
+					}
+					ok = hasBase
+				}
+			}
 		}
 		pos := p.Pos(fn.Pos())
 		if len(ce) > 0 {
